@@ -936,82 +936,47 @@ fn rule_min_costs<StorageT: 'static + PrimInt + Unsigned>(
 where
     usize: AsPrimitive<StorageT>,
 {
-    // We use a simple(ish) fixed-point algorithm to determine costs. We maintain two lists
-    // "costs" and "done". An integer costs[i] starts at 0 and monotonically increments
-    // until done[i] is true, at which point costs[i] value is fixed. We also use the done
-    // list as a simple "todo" list: whilst there is at least one false value in done, there is
-    // still work to do.
-    //
-    // On each iteration of the loop, we examine each rule in the todo list to see if
-    // we can get a better idea of its true cost. Some are trivial:
-    //   * A rule with an empty production immediately has a cost of 0.
-    //   * Rules whose productions don't reference any rules (i.e. only contain tokens) can be
-    //     immediately given a cost by calculating the lowest-cost production.
-    // However if a rule A references another rule B, we may need to wait until
-    // we've fully analysed B before we can cost A. This might seem to cause problems with
-    // recursive rules, so we introduce the concept of "incomplete costs" i.e. if a production
-    // references a rule we can work out its minimum possible cost simply by counting
-    // the production's token costs. Since rules can have a mix of complete and
-    // incomplete productions, this is sometimes enough to allow us to assign a final cost to
-    // a rule (if the lowest complete production's cost is lower than or equal to all
-    // the lowest incomplete production's cost). This allows us to make progress, since it
-    // means that we can iteratively improve our knowledge of a token's minimum cost:
-    // eventually we will reach a point where we can determine it definitively.
+    // We use a simple fixed-point algorithm to determine costs. costs[i] is `None` until we have
+    // found a sentence for rule i; from then on it is the cost of the cheapest sentence found so
+    // far. On each iteration of the loop we examine every production all of whose rules have a
+    // sentence: if the production's cost (its tokens' costs plus its rules' current costs) is
+    // lower than what we know for its rule, we have found a cheaper sentence. A cost only ever
+    // decreases, so eventually nothing changes, at which point each rule has the cost of its
+    // minimal sentence. Rules that cannot derive a sentence at all (e.g. `A: A 'x';`) still
+    // have no cost then: they are given the maximum cost.
 
-    let mut costs = vec![0; usize::from(grm.rules_len())];
-    let mut done = vec![false; usize::from(grm.rules_len())];
+    let mut costs: Vec<Option<u16>> = vec![None; usize::from(grm.rules_len())];
     loop {
-        let mut all_done = true;
-        for i in 0..done.len() {
-            if done[i] {
-                continue;
-            }
-            all_done = false;
-            let mut ls_cmplt = None; // lowest completed cost
-            let mut ls_noncmplt = None; // lowest non-completed cost
-
-            // The call to as_() is guaranteed safe because done.len() == grm.rules_len(), and
+        let mut changed = false;
+        for i in 0..costs.len() {
+            // The call to as_() is guaranteed safe because costs.len() == grm.rules_len(), and
             // we guarantee that grm.rules_len() can fit in StorageT.
-            for pidx in grm.rule_to_prods(RIdx(i.as_())).iter() {
+            'a: for pidx in grm.rule_to_prods(RIdx(i.as_())).iter() {
                 let mut c: u16 = 0; // production cost
-                let mut cmplt = true;
                 for sym in grm.prod(*pidx) {
                     let sc = match *sym {
                         Symbol::Token(tidx) => u16::from(token_costs[usize::from(tidx)]),
-                        Symbol::Rule(ridx) => {
-                            if !done[usize::from(ridx)] {
-                                cmplt = false;
-                            }
-                            costs[usize::from(ridx)]
-                        }
+                        Symbol::Rule(ridx) => match costs[usize::from(ridx)] {
+                            Some(sc) => sc,
+                            // We don't (yet) know a sentence for this production.
+                            None => continue 'a,
+                        },
                     };
                     c = c
                         .checked_add(sc)
                         .expect("Overflow occurred when calculating rule costs");
                 }
-                if cmplt && (ls_cmplt.is_none() || Some(c) < ls_cmplt) {
-                    ls_cmplt = Some(c);
-                } else if !cmplt && (ls_noncmplt.is_none() || Some(c) < ls_noncmplt) {
-                    ls_noncmplt = Some(c);
+                if costs[i].is_none() || Some(c) < costs[i] {
+                    costs[i] = Some(c);
+                    changed = true;
                 }
             }
-            if let Some(low_cmplt) = ls_cmplt
-                && (ls_noncmplt.is_none() || ls_cmplt < ls_noncmplt)
-            {
-                debug_assert!(low_cmplt >= costs[i]);
-                costs[i] = low_cmplt;
-                done[i] = true;
-            } else if let Some(ls_noncmplt) = ls_noncmplt {
-                debug_assert!(ls_noncmplt >= costs[i]);
-                costs[i] = ls_noncmplt;
-            }
         }
-        if all_done {
-            debug_assert!(done.iter().all(|x| *x));
+        if !changed {
             break;
         }
     }
-    costs
+    costs.into_iter().map(|c| c.unwrap_or(u16::MAX)).collect()
 }
 
 /// Return the cost of the maximal string for each rule in this grammar (u32::max_val()
